@@ -21,6 +21,7 @@ the hand-written list of the Go types the harness registers (harness/sut/wire) w
 import copy
 import json
 import os
+import re
 import time
 from concurrent.futures import ThreadPoolExecutor
 
@@ -101,15 +102,16 @@ def expand_catalogue(path):
 
 # ------------------------------------------------------------------------------------------------ helpers
 
-MC_CFG = """SPECIFICATION Spec
-CONSTANTS Alphabet = {0, 1, 2, 255}
- MaxLen = %d
- Sids = {%s}
- Emit = %s
- ValDepth = %d
-INVARIANTS BytesGood ValuesGood
-"""
-TRACE_CFG = "INIT TInit\nNEXT TNext\nPOSTCONDITION Accepted\n"
+def mc_cfg(ctx, sids, emit):
+    """spec/wire/WireMC(.thorough).cfg with the Sids / Emit constants of this TLC process"""
+    name = "WireMC.thorough.cfg" if ctx.thorough else "WireMC.cfg"
+    with open(os.path.join(ctx.spec(SUB), name)) as fh:
+        cfg = fh.read()
+    cfg = cfg.replace("Sids = {}", "Sids = {%s}" % ", ".join(str(i) for i in sids))
+    return cfg.replace("Emit = FALSE", "Emit = %s" % ("TRUE" if emit else "FALSE"))
+
+
+TRACE_CFG = "INIT TInit\nNEXT TNext\nPOSTCONDITION Accepted\n"      # = spec/wire/WireTrace.cfg
 
 # which property a class of disagreement belongs to (valid = the model accepts the input / value)
 DEC_PROPS = {
@@ -168,14 +170,15 @@ def gen_rows(ctx, info=None):
     if os.path.exists(marker):
         return json.load(open(marker))
     full, cat = prepare(ctx)
-    maxlen, depth = (7, 4) if ctx.thorough else (6, 3)
+    cfg0 = mc_cfg(ctx, [], False)
+    maxlen = int(re.search(r"MaxLen = (\d+)", cfg0).group(1))
+    depth = int(re.search(r"ValDepth = (\d+)", cfg0).group(1))
     procs, workers = 4, 4
     sd = ctx.spec(SUB)
 
     def one(arg):
         j, sids = arg
-        cfg = MC_CFG % (maxlen, ", ".join(str(i) for i in sids), "TRUE", depth)
-        return j, tlc.run(sd, "WireMC", cfg, extra_files={"catalogue.json": full}, workers=workers,
+        return j, tlc.run(sd, "WireMC", mc_cfg(ctx, sids, True), extra_files={"catalogue.json": full}, workers=workers,
                           timeout=3000, heap="3g")
 
     with ThreadPoolExecutor(max_workers=procs) as ex:
@@ -235,6 +238,29 @@ class Model(Base):
         ctx.bump("tlc_exhaustive_runs")
         ctx.bump("model_states_schema_x_bytestring", res["rows"])
         ctx.bump("model_values_enumerated", res["vrows"])
+
+
+class Deep(Base):
+    """thorough tier: random schemas of nesting depth 3 (TLC -simulate), the model's properties only"""
+    name = "Wire:deep-schemas"
+
+    def run(self, ctx):
+        if not ctx.thorough:
+            self.info = {"skipped": "thorough tier only"}
+            return
+        sd = ctx.spec(SUB)
+        with open(os.path.join(sd, "WireSim.cfg")) as fh:
+            cfg = fh.read()
+        r = tlc.run(sd, "WireSim", cfg, workers=8, timeout=3000, heap="3g", simulate="num=60", depth=4, seed=ctx.seed)
+        failed = [p for t, p in r.prints if t == "FAILED"][:3]
+        m = re.search(r"(\d+) states checked, (\d+) traces generated", r.out)
+        if not r.ok() or failed or not m:
+            save = os.path.join(ctx.out, "WireSim.out")
+            with open(save, "w") as fh:
+                fh.write(r.out)
+            raise Inconclusive("TLC -simulate on WireSim: %s %s (the MODEL breaks its own property; output: %s)" % (r.status, failed, save))
+        self.info = {"schemas_checked": int(m.group(1)), "traces": int(m.group(2)), "wall": round(r.wall, 1)}
+        ctx.bump("random_deep_schemas_checked_on_model", int(m.group(1)))
 
 
 def split_lines(path, parts, prefix):
@@ -466,7 +492,7 @@ ASSUMPTIONS = [
 
 def units(ctx):
     ctx.assumptions += ASSUMPTIONS
-    return [Model(), Table(), Records()]
+    return [Model(), Table(), Records(), Deep()]
 
 
 def units_for(ctx, prop):
@@ -475,4 +501,4 @@ def units_for(ctx, prop):
     if prop not in ("C01", "C02", "C03"):
         raise ValueError(prop)
     ctx.assumptions += ASSUMPTIONS
-    return [Model(prop), Table(prop), Records(prop)]
+    return [Model(prop), Table(prop), Records(prop), Deep(prop)]
